@@ -26,7 +26,7 @@ Print Assumptions C05_roundtrip.
 (* what iso means *)
 Theorem C05_iso_meaning : forall f f', iso f f' ->
   map erase f = map erase f' /\ map rdid (pre_f f) = map rdid (pre_f f').
-Proof. intros f f' H. split; [exact H|now apply iso_dids]. Qed.
+Proof. exact iso_meaning. Qed.
 Print Assumptions C05_iso_meaning.
 
 (* 2. The file meta handed back is the stored header: every user member, generator, version, maps in use *)
